@@ -39,6 +39,8 @@ CONFIGS = {
     # a chunk index cap that a 14-session history (about 60 chunks) stays far below
     "H": dict(BASE, HF_XET_MAX_XORB_CHUNKS="4", HF_XET_MAX_XORB_BYTES="100000", HF_XET_NRANGES_IN_STREAMING_FRAGMENTATION_ESTIMATOR="128",
               HF_XET_CHUNK_INDEX_TABLE_MAX_SIZE="150"),
+    # a fragmentation estimator over two ranges and xorbs that are not cut inside a small file
+    "F": dict(BASE, HF_XET_MAX_XORB_CHUNKS="64", HF_XET_MAX_XORB_BYTES="100000", HF_XET_NRANGES_IN_STREAMING_FRAGMENTATION_ESTIMATOR="2"),
     "E": {"HF_XET_TARGET_CHUNK_SIZE": "256", "HF_XET_MAX_XORB_CHUNKS": "3", "HF_XET_MAX_XORB_BYTES": "4096",
           "HF_XET_NRANGES_IN_STREAMING_FRAGMENTATION_ESTIMATOR": "128"},
 }
@@ -60,7 +62,9 @@ def run_all(ctx, props, faults=1):
     w = vlib.workdir(ctx.pid.lower())
     k = 6 if thorough else 1
     plan = [("A", "random", 40 * k, {}), ("B", "random", 12 * k, {}), ("C", "random", 15 * k, {}),
-            ("D", "natural", 12 * k, {}), ("E", "natural", 8 * k, {}), ("A", "random", 12 * k, {"gd": 1}), ("U", "random", 20 * k, {"gd": 1, "users": 3}),
+            ("D", "natural", 12 * k, {}), ("E", "natural", 8 * k, {}), ("A", "random", 12 * k, {"gd": 1}),
+            # constant and short-period content only: rejected dedup hits followed by hits in the file's own pending data
+            ("D", "natural", 10 * k, {"periodic": 1}), ("E", "natural", 8 * k, {"periodic": 1}), ("U", "random", 20 * k, {"gd": 1, "users": 3}),
             # several users without global dedup: a user who uploads what another one uploaded produces byte-identical
             # xorbs and shards, which the store answers with "exists"
             ("A", "random", 12 * k, {"users": 3}),
@@ -81,6 +85,8 @@ def run_all(ctx, props, faults=1):
             ("A", "sweep", 1, {"nputs": 8}), ("G", "sweep", 1, {"nputs": 10}),
             # all upload permits taken by slow uploads, one of which fails while the next registration waits
             ("P", "saturate", 1, {}),
+            # rejected dedup hits whose tail is then found in the file's own pending data
+            ("F", "defrag", 1, {"blocks": 40}),
             # a long history of sessions against one shard cache, each re-uploading its predecessor's file
             ("H", "history", 2 * k, {"blocks": 200, "sessions": 14}),
             # 10-16 files cleaned concurrently with session-shard flushes in between, then re-uploaded
@@ -121,7 +127,7 @@ def run_all(ctx, props, faults=1):
             counts[kk] = counts.get(kk, 0) + v
         if i == 0:
             ctx.sample({"config": CONFIGS[cfg], "recorded_trace_prefix": r["sample"][:8]})
-        validate(ctx, t, "%s-%s%s%s" % (cfg, mode, "-gd" if "gd" in extra else "", "-remote" if "remote" in extra else "-api" if "api" in extra else ""), props)
+        validate(ctx, t, "%s-%s%s%s" % (cfg, mode, "-gd" if "gd" in extra else "", "-remote" if "remote" in extra else "-api" if "api" in extra else "-periodic" if "periodic" in extra else ""), props)
     ctx.notes["event_counts"] = counts
     ctx.notes["configurations"] = {k2: CONFIGS[k2] for k2 in sorted({p[0] for p in plan})}
     # vacuity: the interesting branches must have been exercised
